@@ -547,6 +547,9 @@ func (vc *VC) evalIndex(st *State, x *ast.IndexExpr) Val {
 			av := vc.deref(st, base, x.Pos())
 			idx := vc.eval(st, x.Index)
 			vc.emit(st, "bounds", vc.fn.Key+"/bounds", vc.site("bounds"), fmt.Sprintf("(and (<= 0 %s) (< %s %d))", idx.S, idx.S, a.Len()), x.Pos(), "")
+			if isByteArraySmall(a) {
+				return Val{S: vc.byteOfBE(av.S, idx.S, a.Len()), Ty: a.Elem(), Sort: "Int"}
+			}
 			v := Val{S: fmt.Sprintf("(select %s %s)", av.S, idx.S), Ty: a.Elem(), Sort: vc.sortOf(a.Elem())}
 			vc.assumeRange(st, v)
 			return v
@@ -1158,12 +1161,13 @@ func (vc *VC) boxNames(t types.Type) (box, unbox string, tid int) {
 func (vc *VC) box(st *State, v Val) string {
 	vc.needDyntype()
 	box, unbox, tid := vc.boxNames(v.Ty)
-	b := vc.define("boxed", "Int", fmt.Sprintf("(%s %s)", box, v.S))
-	if isAtom(v.S) && b != v.S {
-		// define() returned a fresh const
+	if !vc.boxFuncs[box] {
+		vc.boxFuncs[box] = true
+		s := vc.sortOf(v.Ty)
+		// boxing is injective, boxed values live in the negative range, and carry their dynamic type
+		vc.globalAxioms = append(vc.globalAxioms, fmt.Sprintf("(assert (forall ((v %s)) (! (and (< (%s v) 0) (= (dyntype (%s v)) %d) (= (%s (%s v)) v)) :pattern ((%s v)))))", s, box, box, tid, unbox, box, box))
 	}
-	vc.assume(st, fmt.Sprintf("(and (< %s 0) (= (dyntype %s) %d) (= (%s %s) %s))", b, b, tid, unbox, b, v.S))
-	return b
+	return fmt.Sprintf("(%s %s)", box, v.S)
 }
 
 // explicit conversion T(x)
